@@ -71,3 +71,29 @@ func (NullLogger) Dropped(i int) uint64                               { return 0
 // Quiet replaces Gaea's global console logger (debug level, stdout) with a
 // silent one. Call once from TestMain.
 func Quiet() { log.SetGlobalLogger(NullLogger{}) }
+
+// BadKinds is the number of ways BadConfig can spoil a configuration.
+const BadKinds = 4
+
+// BadConfig is Config(name, version) with one defect that
+// proxy/server.NewNamespace rejects (so the failure happens inside
+// NamespaceManager.RebuildNamespace, after ReloadNamespacePrepare has started):
+// 1 unparsable slow_sql_time, 2 charset/collation pair that does not match,
+// 3 default slice that is not in the slice list (router.NewRouter, after the
+// slices and their pools were built), 4 shard rule on a slice that does not exist.
+// Its users are those of (name, version): they must never become valid.
+func BadConfig(name string, version, kind int) *models.Namespace {
+	c := Config(name, version)
+	switch kind {
+	case 1:
+		c.SlowSQLTime = "soon"
+	case 2:
+		c.DefaultCharset, c.DefaultCollation = "utf8mb4", "latin1_bin"
+	case 3:
+		c.DefaultSlice = "slice-9"
+	default:
+		c.ShardRules = []*models.Shard{{DB: "db_" + name, Table: "t", Type: "hash", Key: "id",
+			Locations: []int{1}, Slices: []string{"slice-9"}}}
+	}
+	return c
+}
